@@ -66,17 +66,46 @@ func B(b bool) string {
 	return "false"
 }
 
+// Bytes renders a byte string as a Coq `list Z`.  Long runs of one byte are
+// written as `rep n b` (Lib/Bytes.v) so that 64 KiB texts do not become 64 Ki
+// list cells for the parser.
 func Bytes(b []byte) string {
-	var sb strings.Builder
-	sb.WriteByte('[')
-	for i, c := range b {
-		if i > 0 {
-			sb.WriteString("; ")
+	plain := func(seg []byte) string {
+		var sb strings.Builder
+		sb.WriteByte('[')
+		for i, c := range seg {
+			if i > 0 {
+				sb.WriteString("; ")
+			}
+			fmt.Fprintf(&sb, "%d", c)
 		}
-		fmt.Fprintf(&sb, "%d", c)
+		sb.WriteByte(']')
+		return sb.String()
 	}
-	sb.WriteByte(']')
-	return sb.String()
+	var parts []string
+	start := 0
+	i := 0
+	for i < len(b) {
+		j := i
+		for j < len(b) && b[j] == b[i] {
+			j++
+		}
+		if j-i >= 64 {
+			if i > start {
+				parts = append(parts, plain(b[start:i]))
+			}
+			parts = append(parts, fmt.Sprintf("rep %d %d", j-i, b[i]))
+			start = j
+		}
+		i = j
+	}
+	if start < len(b) || len(parts) == 0 {
+		parts = append(parts, plain(b[start:]))
+	}
+	if len(parts) == 1 && strings.HasPrefix(parts[0], "[") {
+		return parts[0]
+	}
+	return "(" + strings.Join(parts, " ++ ") + ")"
 }
 
 func Str(s string) string { return Bytes([]byte(s)) }
